@@ -260,6 +260,12 @@ fn classify(c: &TbsCase, sig: &SigParams, sh: &Shape, rec: &mut Rec) {
     } else {
         "dups:case-variant"
     });
+    // two members that differ only in the letter case of a name that is NOT folded (NSEC next
+    // name, SVCB/HTTPS target): distinct RRs, both belong in the signed data
+    let lower = |r: &MRdata| r.raw().to_ascii_lowercase();
+    if !sh.has_dups && c.rdatas.iter().enumerate().any(|(i, r)| c.rdatas[..i].iter().any(|q| q != r && lower(q) == lower(r))) {
+        rec.class("members:differ-only-in-case-of-an-unfolded-name");
+    }
     rec.class(if sh.order_differs { "input-order:not-canonical" } else { "input-order:canonical" });
     rec.class(if sh.case_matters { "rdata-names:upper-case-present" } else { "rdata-names:no-folding-needed" });
     rec.class(match c.labels {
